@@ -130,9 +130,11 @@ def main():
         state["ev"], state["cur"] = ev, ctx.current
 
     if hasattr(signal, "setitimer") and not os.environ.get("VERIF_NO_STALL"):
-        signal.signal(signal.SIGALRM, on_tick)
+        # ticks are measured in CPU time of this process, not wall time: a loaded machine must not turn a slow case into a "stall"
+        # (a worker that blocks without using CPU is ended by the wall-clock watchdog above instead)
+        signal.signal(signal.SIGPROF, on_tick)
         tick = getattr(mod, "STALL_S", 30 if ctx.tier == "quick" else 120)
-        signal.setitimer(signal.ITIMER_REAL, tick, tick)
+        signal.setitimer(signal.ITIMER_PROF, tick, tick)
     try:
         if tier == "replay":
             body = json.load(open(sys.argv[7], encoding="utf8"))
